@@ -1,6 +1,7 @@
 """C14 - a time-limit violation yields exactly one timeout report and a usable sandbox, under every interleaving
 of the grader thread with the interrupted student thread."""
 import io
+import os
 import sys
 import threading
 import time
@@ -1070,7 +1071,18 @@ def all_cases(ctx):
 
 def run(ctx):
     from props import sbx_common as sc
+    import shutil
     d = sc.private_cwd()
+    try:
+        _run(ctx)
+    finally:
+        # (the worker may leave without running exit handlers, student threads still alive)
+        os.chdir('/')
+        shutil.rmtree(d, ignore_errors=True)
+
+
+def _run(ctx):
+    from props import sbx_common as sc
     rng = ctx.rng
     cases = all_cases(ctx)
     mine = cases[ctx.shard::ctx.nshards]
